@@ -244,9 +244,20 @@ def d4(ctx, F):
     ctx.floor("C03.D4.sites", len(sites), 2)
 
 
+def d5(ctx, F):
+    """the transforms inside the pipeline are themselves whole: compressors finish, decompressors read to the end, and the batch reader
+    accepts exactly what the batch writer produces (rules of C14.D1 and C05.D5)"""
+    from . import c14, c05
+    c14.d1(ctx, F)
+    c14.decomp_whole_output(ctx, F, "C03.D5")
+    c05.d5(ctx, F)
+    c05.d5_guard_exactness(ctx, F)
+
+
 def run(ctx):
     F = ctx.facts("quick")
     d1(ctx, F)
     d2(ctx, F)
     d3(ctx, F)
     d4(ctx, F)
+    d5(ctx, F)
